@@ -87,7 +87,10 @@ def _ndarray_to_bytes(arr):
   if arr.dtype.hasobject or arr.dtype.isalignedstruct:
     raise ValueError('Object and structured dtypes not supported '
                      'for serialization of ndarrays.')
-  tpl = (arr.shape, arr.dtype.name, arr.tobytes('C'))
+  # dtype.name drops the byte order: keep it (as the dtype string, e.g. '>i4')
+  # for arrays that are not in native byte order.
+  dtype_name = arr.dtype.name if arr.dtype.isnative else arr.dtype.str
+  tpl = (arr.shape, dtype_name, arr.tobytes('C'))
   return msgpack.packb(tpl, use_bin_type=True)
 
 
@@ -110,7 +113,7 @@ def _ndarray_from_bytes(data):
 def _bytes_ndarray_to_bytes(x):
   shape = x.shape
   flat = list(x.flatten())
-  if flat and not isinstance(flat[0], bytes):
+  if not all(isinstance(v, bytes) for v in flat):
     raise ValueError('Only ndarrays holding bytes objects can be serialized.')
   tpl = shape, flat
   return msgpack.packb(tpl, use_bin_type=True)
